@@ -141,7 +141,7 @@ def run_rows(chk, rows, configs, matcher, rule_prefix, tier, header_configs=None
             iname = inst if hc_name == 'default' else '%s@%s' % (inst, hc_name)
             chk.expect(e.a[0].x == res_slot, R2, iname + ':dest',
                        'result is written to %s, the new top of the stack is %s' % (e.a[0].x, res_slot), site, e.loc())
-            mres = matcher(row, e.a[1], ops, dict(tu=tu, res_t=res_t, config=hc_name))
+            mres = matcher(row, e.a[1], ops, dict(tu=tu, res_t=res_t, config=hc_name, tier=tier))
             probs, decided = mres[0], mres[1]
             R3x = mres[2] if len(mres) > 2 else R3
             if not decided:
@@ -157,6 +157,27 @@ def run_rows(chk, rows, configs, matcher, rule_prefix, tier, header_configs=None
 
 
 def int_matcher(row, rhs, ops, ctx):
+    """descriptor match; a shape the descriptors do not recognise is evaluated exactly on a grid of boundary operands - a
+    disagreement with the specification is a definite violation (with its witness), agreement leaves the row undecided (exit 2)"""
+    try:
+        res = _int_matcher(row, rhs, ops, ctx)
+        if not res[0]:
+            # second, independent decision of the same row: exact evaluation on the boundary grid (also a self-test of the evaluator)
+            try:
+                bad = sr.refute_on_grid(row, rhs, ops, sr.W_OF[ctx['res_t']], small=ctx.get('tier') != 'thorough')
+            except AnalysisBroken:
+                bad = None          # fallback implementations without builtins are outside the evaluator
+            if bad:
+                return ['descriptor accepted the template but %s' % bad], True
+        return res
+    except AnalysisBroken as ex:
+        bad = sr.refute_on_grid(row, rhs, ops, sr.W_OF[ctx['res_t']])
+        if bad is None:
+            raise AnalysisBroken('%s (agrees with the specification on the boundary grid, which does not decide all operands)' % ex)
+        return ['%s (shape not recognised: %s)' % (bad, str(ex)[:160])], True
+
+
+def _int_matcher(row, rhs, ops, ctx):
     cls = row['sem']['cls']
     if cls == 'bin':
         return sr.descr_bin(row, rhs, ops), True
